@@ -684,17 +684,29 @@ func r10_1e(c *RC) {
 			if !ok || !in.Pos().IsValid() {
 				return // go/ssa's synthetic "blocking select matched no case"
 			}
+			// a panic moved into a small helper of a classified function
+			// still belongs to that function's budget
 			name := fnName(fn)
 			msg := panicMessage(pn)
-			key := "panic@" + name
 			var cls *panicClass
-			for i := range panicTable {
-				t := &panicTable[i]
-				if strings.HasSuffix(strings.TrimSuffix(name, "$1"), t.fn) {
-					cls = t
-					break
+			classify := func(n string) *panicClass {
+				for i := range panicTable {
+					t := &panicTable[i]
+					if strings.HasSuffix(strings.TrimSuffix(n, "$1"), t.fn) {
+						return t
+					}
+				}
+				return nil
+			}
+			cls = classify(name)
+			if cls == nil {
+				if o := ownerFn(p, fn); o != outermost(fn) {
+					if oc := classify(fnName(o)); oc != nil {
+						name, cls = fnName(o), oc
+					}
 				}
 			}
+			key := "panic@" + name
 			perFn[name]++
 			if cls == nil {
 				c.Bad(key, in.Pos(), "unclassified panic (%q) in network-facing code: the process has no recover(), so this must be an error return or be classified with the invariant that makes it unreachable for peer-controlled data", msg)
